@@ -25,7 +25,7 @@ NonNeg(b) == b[1] >= 0                       \* limb-encoded integer: first entr
 \* projection then pairing: RT = {z, p (tuple of big ints), zz}
 RTStep ==
     /\ More /\ E.e = "RT"
-    /\ IF E.ok = 1 /\ E.zz = E.z /\ \A i \in 1..Len(E.p) : NonNeg(E.p[i])
+    /\ IF E.ok = 1 /\ E.zz = E.z /\ (\A i \in 1..Len(E.p) : NonNeg(E.p[i])) /\ (~("dim" \in DOMAIN H) \/ Len(E.p) = H.dim)
        THEN bad' = bad ELSE Viol("ProjectionThenPairing", H.kind) /\ bad' = bad + 1
     /\ ln' = ln + 1 /\ UNCHANGED <<pvars, tid, fin>>
 \* pairing then projection: TR = {x (tuple), z, xx}
